@@ -134,6 +134,11 @@ def handle : Handler := fun fn args =>
       let a ← asStr (← argAt args 0)
       let b ← asStr (← argAt args 1)
       .ok (ordJ (NatSort.keyCmp (NatSort.natKey a.toList) (NatSort.natKey b.toList)))
+  | "path_step" => do
+      let ss ← asList asStr (← argAt args 0)
+      .ok (.arr (ss.map (fun s => match NatSort.pathStepTok s.toList with
+        | some t => Json.str (String.ofList t)
+        | none => Json.null)).toArray)
   | "show_int" => do
       let ns ← asList asBigInt (← argAt args 0)
       .ok (.arr (ns.map (fun n => Json.str (String.ofList (NatSort.showInt n)))).toArray)
